@@ -55,6 +55,10 @@ CLAIMED["C14"] = dict(level="model_checking", technique=SCHEMA_TECH, note=SCHEMA
                       text="all histories of 3 (thorough 4) loads over 27 documents (valid, extend, schema blocks; one failing document per failure class incl. reader faults, each after valid content): after every load the verdict and the read-back schema must equal Loader!LoadResult - unchanged after a refused load")
 CLAIMED["C16"] = dict(level="model_checking", technique=SCHEMA_TECH, note=SCHEMA_NOTE, design="DESIGN.md §6 C16",
                       text="every permutation x cut into <=3 loads x extend-move of 7 definition sets: TLC checks OrderFree on the specification, and each arrangement replayed on a real Root must read back as the canonical schema of the reference arrangement (same verdict, same types/members/wrappers/defaults/directive uses with defaults filled, same roots)")
+CLAIMED["C13"] = dict(level="model_checking", technique="TLA+ rule catalogue (SchemaRules.tla) evaluated by TLC on exhaustively mutated base schemas (MCRules.tla); every mutated document loaded into a real Root", note=SCHEMA_NOTE, design="DESIGN.md §6 C13",
+                      text="2 well-formed base schemas x every mutation of the catalogue at every applicable position: verdict, offender named by the error, and read-back of accepted documents must agree with SchemaRules!Violations / Loader!LoadResult (TLC also checks that every mutation is refused by the specification and every base accepted)")
+CLAIMED["C17"] = dict(level="model_checking", technique="TLA+ introspection view (Introspect.tla) computed by TLC for every schema reached by the loader state machine; full introspection request executed on real roots of three kinds and compared", note=SCHEMA_NOTE, design="DESIGN.md §6 C17",
+                      text="for every accepted schema of MCRules (bases and valid variants) and of the arrangements of MCArrange: the full introspection response with includeDeprecated true/false on roots served by reflection, a Resolver object and an installed root resolver must equal Introspect!Intro; __type on an unknown name is null")
 
 NOT_YET = {
 }
